@@ -210,36 +210,39 @@ def main(tier=None):
     pend = []
     for np_ in ((1, 2, 3) if thorough else (1, 2)):
         for posts in (['iput'], ['iget'], ['bput'], ['iput_varn'], ['iput', 'iget', 'bput'], ['iget_conv', 'iput_conv']):
-            for how in ('close', 'abort', 'redef_abort', 'indep_close', 'indep_abort'):
+            for how in ('close', 'abort', 'redef_abort', 'indep_close', 'indep_abort', 'newdef_abort', 'newdef_close'):
                 c = Case('C17-pending-np%d-%s-%s' % (np_, '+'.join(posts), how), np_)
                 c.op('*', 'create', f=0, path='p.nc', fmt=2)
                 c.op('*', 'def_dim', name='t', unlim=1); c.op('*', 'def_dim', name='x', len=4)
                 c.op('*', 'def_var', name='v', xtype='int', dims=[0, 1]); c.op('*', 'def_var', name='w', xtype='short', dims=[1])
-                c.op('*', 'enddef', f=0)
-                c.op('*', 'put', f=0, form='vara', v=0, s=[0, 0], c=[2, 4], coll=1, mem='int', tag=3, scale=1)
+                if not how.startswith('newdef'):       # newdef: requests posted in the define mode of a file that never left it
+                    c.op('*', 'enddef', f=0)
+                    c.op('*', 'put', f=0, form='vara', v=0, s=[0, 0], c=[2, 4], coll=1, mem='int', tag=3, scale=1)
                 if 'bput' in posts: c.op('*', 'buffer_attach', f=0, size=256)
                 if how.startswith('indep'): c.op('*', 'begin_indep', f=0)
+                plines = []
                 for q, kind in enumerate(posts):
-                    if kind in ('iput', 'bput'): c.op('*', 'put', f=0, form='vara', v=0, s=[2 + q, 0], c=[1, 4], mem='int', tag=5 + q, scale=1, nb='i' if kind == 'iput' else 'b', req=q)
-                    elif kind == 'iput_conv': c.op('*', 'put', f=0, form='vara', v=1, s=[0], c=[4], mem='double', tag=7, scale=1, nb='i', req=q)
-                    elif kind == 'iget': c.op('*', 'get', f=0, form='vara', v=0, s=[0, 0], c=[2, 2], mem='int', nb='i', req=q)
-                    elif kind == 'iget_conv': c.op('*', 'get', f=0, form='vara', v=0, s=[1, 0], c=[1, 4], mem='double', nb='i', req=q)
-                    else: c.op('*', 'put', f=0, form='varn', v=0, mem='int', n=2, nd=2, s0=[3, 0], c0=[2, 2], s1=[2, 2], c1=[1, 2], tag=9, scale=1, nb='i', req=q)
+                    if kind in ('iput', 'bput'): plines.append(c.op('*', 'put', f=0, form='vara', v=0, s=[2 + q, 0], c=[1, 4], mem='int', tag=5 + q, scale=1, nb='i' if kind == 'iput' else 'b', req=q))
+                    elif kind == 'iput_conv': plines.append(c.op('*', 'put', f=0, form='vara', v=1, s=[0], c=[4], mem='double', tag=7, scale=1, nb='i', req=q))
+                    elif kind == 'iget': plines.append(c.op('*', 'get', f=0, form='vara', v=0, s=[0, 0], c=[2, 2], mem='int', nb='i', req=q))
+                    elif kind == 'iget_conv': plines.append(c.op('*', 'get', f=0, form='vara', v=0, s=[1, 0], c=[1, 4], mem='double', nb='i', req=q))
+                    else: plines.append(c.op('*', 'put', f=0, form='varn', v=0, mem='int', n=2, nd=2, s0=[3, 0], c0=[2, 2], s1=[2, 2], c1=[1, 2], tag=9, scale=1, nb='i', req=q))
                 if how == 'redef_abort': c.op('*', 'redef', f=0); c.op('*', 'put_att', f=0, v=-1, name='a', xtype='int', n=1, vals=[1])
                 lx = c.op('*', 'abort' if how.endswith('abort') else 'close', f=0)
                 stale = c.op('*', 'sync', ncid=0)
                 led = c.op('*', 'ledger'); nfo = c.op('*', 'inq_files_opened')
-                pend.append((c, lx, stale, led, nfo))
+                pend.append((c, lx, stale, led, nfo, plines))
     pres = runner.run_cases(b['vx'], [x[0] for x in pend], batch=30)
-    for (c, lx, stale, led, nfo), r in zip(pend, pres):
+    for (c, lx, stale, led, nfo, plines), r in zip(pend, pres):
         ck.cov['evaluations'] += 1; trans += 1
         if r.status != 'ok':
             from engine.script import first_frame
             ck.violation((r.status, 'pending at exit', first_frame(r.detail)), c.text(), c.name + ': ' + r.detail[:500]); continue
         for k in r.ranks:
             ck.outcomes.add(('pending', c.name.split('-')[-1], r.rc(k, lx)))
-            if r.rc(k, lx) != D.NC_EPENDING:
-                ck.violation(('rc', 'close/abort with pending requests', c.name.split('-')[-1]), c.text(), '%s: rank %d returned %d, expected NC_EPENDING' % (c.name, k, r.rc(k, lx))); break
+            want = D.NC_EPENDING if any(r.rc(k, pl) == 0 for pl in plines) else 0        # a request the library refused to queue (a read posted in define mode) is not pending
+            if r.rc(k, lx) != want:
+                ck.violation(('rc', 'close/abort with pending requests', c.name.split('-')[-1]), c.text(), '%s: rank %d returned %d, expected %d (posting calls returned %s)' % (c.name, k, r.rc(k, lx), want, [r.rc(k, pl) for pl in plines])); break
             if r.rc(k, stale) != D.NC_EBADID:
                 ck.violation(('rc', 'stale id', 'after close/abort with pending requests'), c.text(), '%s: rank %d: the id is still accepted (rc=%d)' % (c.name, k, r.rc(k, stale))); break
             L = r.r(k, led)
@@ -250,7 +253,7 @@ def main(tier=None):
     ck.cov.update(states=states, transitions=trans, traces_validated_against_impl=trans, max_depth=maxd, completed_depth=completed, distinct_nontrivial=states,
                   rule='BFS over {create/open of 3 paths (+ non-netCDF file, missing file, NC_NOCLOBBER), 10 per-file ops incl. close/abort on every id ever returned and on -1, 1023, 1024, 10^6}; '
                        'state = (open id table with per-file reference model, files on disk); after every transition each open file is swept against its own model, all files are closed and the '
-                       'malloc/MPI-object ledger must be zero; plus the NC_MAX_NFILES boundary case; plus every way of leaving a file (close, abort, abort after redef, from independent mode) with iput / iget / bput / iput_varn / converting requests still pending on 1-3 processes: NC_EPENDING, id invalid afterwards, ledger zero')
+                       'malloc/MPI-object ledger must be zero; plus the NC_MAX_NFILES boundary case; plus every way of leaving a file (close, abort, abort after redef, from independent mode, close / abort of a new file still in its first define mode) with iput / iget / bput / iput_varn / converting requests still pending on 1-3 processes: NC_EPENDING, id invalid afterwards, ledger zero')
     ck.assumptions += ['depth bound %d, np=1' % maxdepth]
     runner.cleanup()
     return ck.finish(min_eval=200, min_outcomes=15)
